@@ -567,7 +567,13 @@ def check_idle(ctx):
     ctx.touch(f)
     cfg = cfg_of(f.node)
     tests = [n for n in cfg.nodes if n.kind == "test" and "stop_connection_thread" in norm(n.ast)]
-    ctx.require(bool(tests), "TcpClientConnection.__idle: no test of the stop flag")
+    # the flag disable() raises and waits on is examined - and lowered again - by the waiting thread
+    resets = [n for n in cfg.real_nodes() if isinstance(n.ast, ast.Assign) and any(dotted(t) == "self.stop_connection_thread" for t in n.ast.targets) and rules.literal(f.node, n.ast.value) == (True, False)]
+    ok = bool(tests) and bool(resets)
+    ctx.ob("C09.W2", f.qualname, ok, "__idle examines the stop flag and lowers it when it was raised" if ok else
+           "__idle does not test and lower self.stop_connection_thread: disable() raises that flag and waits until the connect thread lowers it - it waits for ever", key="idle-handshake", where=f.where)
+    if not tests:
+        return
     skip = cfg.path_exists(cfg.entry, cfg.exit, avoid=tests, no_exc=True)
     ctx.ob("C09.W2", f.qualname, not skip, "__idle examines the stop flag on every path" if not skip else
            "__idle can return True without ever examining the stop flag (range(int(t5) * 5) is empty for t5 < 1): a connect loop with a short T5 never sees disable()", key="idle-skips-flag", where=f.where)
@@ -628,6 +634,11 @@ def check_socket_lifecycle(ctx):
     ok = len(made) == 1 and len(bind) == 1 and len(listen) == 1 and bool(heads) and cfg.dominates(made[0], bind[0]) and cfg.dominates(bind[0], listen[0]) and cfg.dominates(listen[0], heads[0])
     ctx.ob("C09.P4", sfn.qualname, ok, "the listening socket is created, bound and listening before the accept loop" if ok else
            "the accept loop is entered without socket -> bind -> listen: no peer can connect", key="bind-listen", where=sfn.where)
+    reuse = [n for n in cfg.real_nodes() if any(call_name(k) == "self._server_sock.setsockopt" and any("SO_REUSEADDR" in norm(a) for a in k.args) for k in n.calls)]
+    if reuse and bind:
+        ok = all(cfg.path_exists(r, bind[0]) and not cfg.path_exists(bind[0], r) for r in reuse)
+        ctx.ob("C09.P4", sfn.qualname, ok, "SO_REUSEADDR is set before the port is bound" if ok else
+               "SO_REUSEADDR is set after bind(): it has no effect on that bind, so re-enabling while the old connection is in TIME_WAIT fails with EADDRINUSE and nothing listens any more", key="reuseaddr-before-bind", where=sfn.where)
     if bind:
         bc = next(k for k in bind[0].calls if call_name(k) == "self._server_sock.bind")
         ok = bool(bc.args) and norm(bc.args[0]) == "(self._settings.address, self._settings.port)"
@@ -645,6 +656,20 @@ def run(ctx):
     check_link_taken_into_service(ctx)
     check_blocking_waits(ctx)
     check_spin_handshakes(ctx)
+    # a socket error while sending is reported to the sender (resolve False), not raised past it: the Separate.req of the
+    # disconnect handling is such a send, and its sender waits without timeout (rules shared with C10.P2)
+    from . import c10
+
+    sub = type(ctx)(ctx.prop, ctx.tier, ctx.seed, ctx.repo)
+    c10.check_all_send_data(sub)
+    c10.check_helper(sub)
+    for o in sub.obligations:
+        if o["rule"] == "C10.P2":
+            o = dict(o)
+            o["rule"] = "C09.W1"
+            ctx.obligations.append(o)
+    for kind in ("files", "functions"):
+        ctx.analysed[kind] |= sub.analysed[kind]
     check_idle(ctx)
     check_idle_and_disable(ctx)
     check_socket_lifecycle(ctx)
